@@ -351,6 +351,60 @@ def run(run):
                     run.count('codec_yields_injected', mon_.yields)
         finally:
             sys.setswitchinterval(old_si)
+        # decided systematically for one switch between two statements
+        if not errors:
+            from ..probes.linemon import PreemptEverywhere
+            pe = PreemptEverywhere(
+                ['minecraft/networking/types/basic.py',
+                 'minecraft/networking/packets/clientbound/play/'
+                 'block_change_packet.py', 'minecraft/utility.py',
+                 'minecraft/networking/connection.py'], max_k=120)
+            for pva, pvb in pairs + [(757, 757), (340, 340)]:
+                ca = ConnectionContext(protocol_version=pva)
+                cb_ = ConnectionContext(protocol_version=pvb)
+
+                def rec_bytes(ctx, x, y, z, st):
+                    sink = Sink()
+                    MBC.Record.send_with_context(
+                        MBC.Record(x=x, y=y, z=z, block_state_id=st), sink,
+                        ctx)
+                    return sink.value()
+
+                def pos_bytes(ctx, t):
+                    sink = Sink()
+                    Position.send_with_context(t, sink, ctx)
+                    return sink.value()
+
+                def exp_rec(ctx, x, y, z, st):
+                    return rw.pack_block_record_new(x, y, z, st) \
+                        if ctx.protocol_later_eq(741) else \
+                        rw.pack_block_record_old(x, y, z, st)
+                ra_, rb_ = (3, 7, 12, 1234), (14, 2, 5, 77)
+                ta_, tb_ = (-1000, 63, 2 ** 24), (77, -5, -3)
+                for fa, fb, ea, eb, what in (
+                        (lambda: rec_bytes(ca, *ra_),
+                         lambda: rec_bytes(cb_, *rb_),
+                         exp_rec(ca, *ra_), exp_rec(cb_, *rb_), 'record'),
+                        (lambda: pos_bytes(ca, ta_),
+                         lambda: pos_bytes(cb_, tb_),
+                         rw.pack_position(*ta_, trace_layout(pva)),
+                         rw.pack_position(*tb_, trace_layout(pvb)),
+                         'position')):
+                    def judge(k, ra, rb, ea=ea, eb=eb, what=what):
+                        if ra != ('ok', ea) or rb != ('ok', eb):
+                            return {'pv': (pva, pvb), what: True,
+                                    'stopped_after_statements': k,
+                                    'thread_a': repr(ra), 'thread_b': repr(rb),
+                                    'expected': (ea, eb)}
+                    wit = pe.run(fa, fb, judge)
+                    if wit:
+                        if what == 'position':
+                            wit['triple'] = ta_
+                        errors.append(wit)
+                        break
+                if errors:
+                    break
+            run.count('codec_preemption_points', pe.points)
         if errors:
             run.violation('position/concurrent-versions' if 'triple' in
                           errors[0] else 'record/concurrent', 'two or three '
